@@ -940,3 +940,43 @@ func CrashCurrent() {
 	s.killProc(t.proc, nil)
 	s.goexit(t)
 }
+
+// ProcContext is what an OS process gets from its environment and a
+// simulated process has to be told: working directory, cache directory
+// (STATICCHECK_CACHE), additions to the environment, and the identity of
+// the binary. The entry point of a simulated linter process sets it; the
+// redirected calls in the code under test (cache.Default, os.Environ,
+// computeSalt, the package loader's working directory) read it.
+type ProcContext struct {
+	Dir      string
+	CacheDir string
+	Env      []string
+	Salt     []byte
+}
+
+var (
+	procCtxMu sync.Mutex
+	procCtx   = map[int]*ProcContext{}
+)
+
+// SetProcContext sets (nil: clears) the context of the calling simulated
+// process (process 0 outside a simulation).
+func SetProcContext(c *ProcContext) {
+	p := CurProc()
+	procCtxMu.Lock()
+	if c == nil {
+		delete(procCtx, p)
+	} else {
+		procCtx[p] = c
+	}
+	procCtxMu.Unlock()
+}
+
+// CurProcContext returns the context of the calling simulated process.
+func CurProcContext() *ProcContext {
+	p := CurProc()
+	procCtxMu.Lock()
+	c := procCtx[p]
+	procCtxMu.Unlock()
+	return c
+}
